@@ -778,6 +778,11 @@ func (f *framer) finish() error {
 		if err != nil {
 			return err
 		}
+		if len(compressed)+f.headSize > maxFrameSize {
+			// the compressor expanded a body that was just under the limit
+			f.buf = make([]byte, defaultBufSize)
+			return ErrFrameTooBig
+		}
 
 		f.buf = append(f.buf[:f.headSize], compressed...)
 	}
